@@ -966,6 +966,10 @@ pub fn eval_step(p: &mut Project, cfg: &ChainCfg, seed: u64, step: usize, edits:
             for v in &u.violations {
                 all_viols.push((v.clone(), "twin"));
             }
+            if !interrupted && u.history_out.is_none() {
+                // this evaluation completed; the same evaluation under another order / schedule did not
+                all_viols.push((mk("C14", "twin-did-not-complete", "".into(), format!("this evaluation finished, but with another declaration order / schedule it did not return a history (errors {:?}, unfinished {:?})", u.errors, p.g.nodes.iter().filter(|n| u.disposition(&n.id) == "unfinished").map(|n| format!("{}={}", n.id, u.state_str(&n.id))).collect::<Vec<_>>())), ""));
+            }
             if u.errors.is_empty() && u.history_out.is_some() {
                 let ustarted = u.started_set();
                 if !interrupted {
@@ -1074,6 +1078,9 @@ pub fn eval_step(p: &mut Project, cfg: &ChainCfg, seed: u64, step: usize, edits:
                 acc.evaluations += 1;
                 for v in &r2.violations {
                     all_viols.push((v.clone(), "rerun"));
+                }
+                if r2.history_out.is_none() {
+                    all_viols.push((mk("C12", "rerun-did-not-complete", "".into(), format!("re-evaluating the unchanged project did not return a history (errors {:?}, unfinished {:?})", r2.errors, p.g.nodes.iter().filter(|n| r2.disposition(&n.id) == "unfinished").map(|n| format!("{}={}", n.id, r2.state_str(&n.id))).collect::<Vec<_>>())), ""));
                 }
                 if r2.errors.is_empty() && r2.history_out.is_some() {
                     for j in &r2.started {
